@@ -23,9 +23,21 @@ def inst : P String := do
   let unit ← P.tok; P.bar; let rc ← P.nat; P.eof
   if rc == 0 then return "ok inst" else return s!"fail {unit} does_not_instantiate rc={rc}"
 
+/-- `range <component> | ok` : a documented call sequence returned only in-range results -/
+def range : P String := do
+  let comp ← P.tok; P.bar; let ok ← P.bool; P.eof
+  if ok then return "ok range" else return s!"fail {comp} result_out_of_range"
+
+/-- `crash <harness> <case> | <kind>` : sanitizer/abort/hang outcome of another property's harness (C10 runtime clause) -/
+def crash : P String := do
+  let h ← P.tok; let c ← P.tok; P.bar; let kind ← P.tok
+  return s!"fail {h} {kind} case={c}"
+
 def handle (toks : List String) : String :=
   (match toks with
    | "match" :: rest => P.run matchOp rest
    | "inst" :: rest => P.run inst rest
+   | "range" :: rest => P.run range rest
+   | "crash" :: rest => P.run crash rest
    | _ => none).getD "bad-op"
 end DrvC10
